@@ -34,6 +34,10 @@ Definition f_inc128 := C03.Model.inc128.
 Definition f_dec128 := C03.Model.dec128.
 Definition f_from_int128 := C03.Model.from_int128.
 Definition f_as_int128 := C03.Model.as_int128.
+Definition f_frac_norm := C03.Model.frac_norm.
+Definition f_frac_value := C03.Model.frac_value.
+Definition f_frac_norm128 := C03.Model.frac_norm128.
+Definition f_frac_value128 := C03.Model.frac_value128.
 Definition m_Neg := Neg. Definition m_Abs := Abs. Definition m_ICmp := ICmp.
 Definition m_IGT := IGreaterThan. Definition m_IGE := IGreaterThanOrEqual. Definition m_EQ := Equal. Definition m_ILT := ILessThan. Definition m_ILE := ILessThanOrEqual.
-Extraction "c03.ml" f_add f_sub f_mul f_div f_trunc f_mod_ f_abs f_ceil f_round f_min_ f_max_ f_inc f_dec f_from_int f_as_int f_checked_as_int f_multiplier f_swrap f_kwrap f_add128 f_sub128 f_mul128 f_div128 f_trunc128 f_mod128 f_ceil128 f_round128 f_min128 f_max128 f_inc128 f_dec128 f_from_int128 f_as_int128 m_Neg m_Abs m_ICmp m_IGT m_IGE m_EQ m_ILT m_ILE.
+Extraction "c03.ml" f_add f_sub f_mul f_div f_trunc f_mod_ f_abs f_ceil f_round f_min_ f_max_ f_inc f_dec f_from_int f_as_int f_checked_as_int f_multiplier f_swrap f_kwrap f_add128 f_sub128 f_mul128 f_div128 f_trunc128 f_mod128 f_ceil128 f_round128 f_min128 f_max128 f_inc128 f_dec128 f_from_int128 f_as_int128 f_frac_norm f_frac_value f_frac_norm128 f_frac_value128 m_Neg m_Abs m_ICmp m_IGT m_IGE m_EQ m_ILT m_ILE.
